@@ -27,6 +27,7 @@ import (
 	"github.com/goccy/go-yaml"
 	"github.com/spf13/cast"
 	"rivaas.dev/config"
+	"rivaas.dev/config/codec"
 	"verif/harness/hx"
 )
 
@@ -307,6 +308,10 @@ func (r *runT) build(c *caseT, withHooks bool) error {
 			opts = append(opts, config.WithEnv(r.envPref))
 		case "static":
 			opts = append(opts, config.WithSource(&staticSrc{m: deepCopyMap(kinds[i].M)}))
+		case "content":
+			// a content-backed file source: the same bytes decoded again on every Load
+			b, _ := json.Marshal(kinds[i].M)
+			opts = append(opts, config.WithContent(b, codec.TypeJSON))
 		default:
 			s := &scriptSrc{cur: r.cur[i], race: r.race[i]}
 			if i == 0 && withHooks {
@@ -399,6 +404,8 @@ func (r *runT) stage(l *loadT) {
 			for k, v := range s.M {
 				_ = os.Setenv(r.envPref+k, fmt.Sprint(v))
 			}
+			// a variable that merely starts with the same letters does not belong to the prefix
+			_ = os.Setenv(strings.TrimSuffix(r.envPref, "_")+"X_NAME", "decoy")
 		}
 	}
 }
@@ -413,6 +420,13 @@ func (r *runT) returned(i int, s *srcT) (map[string]any, bool) {
 		return nil, false
 	}
 	switch s.Kind {
+	case "content":
+		b, _ := json.Marshal(s.M)
+		var m map[string]any
+		if err := json.Unmarshal(b, &m); err != nil {
+			return nil, false
+		}
+		return m, true
 	case "json":
 		var m map[string]any
 		if err := json.Unmarshal(r.written[i], &m); err != nil {
@@ -475,6 +489,8 @@ func typedOK(cfg *config.Config, keys []string) bool {
 		v := cfg.Get(k)
 		ok = ok && cfg.String(k) == cast.ToString(v) && cfg.Int(k) == cast.ToInt(v) && cfg.Bool(k) == cast.ToBool(v) &&
 			cfg.Float64(k) == cast.ToFloat64(v) && cfg.Int64(k) == cast.ToInt64(v)
+		ok = ok && reflect.DeepEqual(cfg.StringSlice(k), cast.ToStringSlice(v)) && reflect.DeepEqual(cfg.IntSlice(k), cast.ToIntSlice(v)) &&
+			reflect.DeepEqual(cfg.StringMap(k), cast.ToStringMap(v)) && cfg.Duration(k) == cast.ToDuration(v) && cfg.Time(k).Equal(cast.ToTime(v))
 		_, gerr := config.GetE[string](cfg, k)
 		ok = ok && (gerr != nil) == (v == nil) // GetE fails exactly when the key is absent (or nil), never for a falsy value
 		if v == nil {
@@ -807,6 +823,7 @@ func emit(id string, c caseT, st *hx.Stats) string {
 	var r runT
 	r.dir = dir
 	r.envPref = "VC14X" + strconv.Itoa(os.Getpid()) + "N" + strconv.Itoa(caseCtr) + "_"
+	defer os.Unsetenv(strings.TrimSuffix(r.envPref, "_") + "X_NAME")
 	defer func() {
 		for _, e := range os.Environ() {
 			if strings.HasPrefix(e, r.envPref) {
@@ -1110,15 +1127,17 @@ func genCase(r *hx.Rand, tier string) caseT {
 			kinds[i] = "json"
 		case 1:
 			kinds[i] = "yaml"
-		case 2, 3:
+		case 2:
 			kinds[i] = "static"
+		case 3:
+			kinds[i] = hx.Pick(r, []string{"static", "content"})
 		default:
 			kinds[i] = "map"
 		}
 	}
 	statics := make([]map[string]any, nsrc)
 	for i := range statics {
-		if kinds[i] == "static" {
+		if kinds[i] == "static" || kinds[i] == "content" {
 			// what a caching source parsed once: lower-case keys mostly, nested maps
 			statics[i] = genMap(r, 0)
 			if c.Bound || r.Chance(1, 2) {
@@ -1139,7 +1158,7 @@ func genCase(r *hx.Rand, tier string) caseT {
 		for i := 0; i < nsrc; i++ {
 			s := srcT{Kind: kinds[i]}
 			switch {
-			case kinds[i] == "static":
+			case kinds[i] == "static" || kinds[i] == "content":
 				s.M = statics[i]
 			case kinds[i] == "env":
 				s.M = map[string]any{}
@@ -1185,7 +1204,7 @@ func genCase(r *hx.Rand, tier string) caseT {
 				}
 				s.M[k] = v
 			}
-			if s.M != nil && kinds[i] != "env" && kinds[i] != "static" {
+			if s.M != nil && kinds[i] != "env" && kinds[i] != "static" && kinds[i] != "content" {
 				if c.Schema && r.Chance(1, 12) {
 					set("schemafail", r.Chance(3, 4))
 				}
@@ -1201,7 +1220,7 @@ func genCase(r *hx.Rand, tier string) caseT {
 					set("server", hx.Pick(r, []any{"not-a-map", map[string]any{"port": "abc"}}))
 				}
 			}
-			if r.Chance(1, 18) && kinds[i] != "static" && kinds[i] != "env" { // those two cannot be made to fail
+			if r.Chance(1, 18) && kinds[i] != "static" && kinds[i] != "content" && kinds[i] != "env" { // those cannot be made to fail
 				s.Fail = true
 			}
 			if kinds[i] == "map" && i < nsrc-1 && r.Chance(1, 40) {
